@@ -1140,9 +1140,11 @@ impl ProofBuilder {
             ));
         }
 
+        // Only attributes of the credential schema can be disclosed or used in predicates;
+        // non-schema attributes (such as the link secret) are always kept hidden.
         if sub_proof_request
             .revealed_attrs
-            .difference(&cred_attrs)
+            .difference(&cred_schema.attrs)
             .count()
             != 0
         {
@@ -1155,7 +1157,7 @@ impl ProofBuilder {
             .map(|predicate| predicate.attr_name.clone())
             .collect::<BTreeSet<String>>();
 
-        if predicates_attrs.difference(&cred_attrs).count() != 0 {
+        if predicates_attrs.difference(&cred_schema.attrs).count() != 0 {
             return Err(err_msg!(
                 "Credential doesn't contain attribute requested in predicate"
             ));
